@@ -224,3 +224,62 @@ Example c12_rollback :
   map fst (nodes (snd r)) = [(1, 1); (1, 2); (1, 3); (1, 4); (1, 5)] /\
   map fst (fastidx (snd r)) = [c12_a; c12_b; c12_c] /\ label (snd r) = Some 1.
 Proof. vm_compute. repeat split; reflexivity. Qed.
+
+(** *** The physical store along every history (PruneAlgo.v, PruneAlgoFacts11): commits write the
+    new nodes and the root entry, DeleteVersionsTo runs the code's orphan traversal with re-keying
+    under an arbitrary flush schedule, LoadVersionForOverwriting deletes the later keys.  After
+    EVERY step of EVERY in-contract history the store is exactly the physical store of the retained
+    versions ([phys_of r]: the expected store with the roots in [r] re-keyed to nonce 0), hence,
+    read with nonce 0 as 1, exactly [expected_store]: nothing missing, nothing left over. *)
+From IAVL Require Import Ics23Facts Store StoreFacts PruneAlgo PruneAlgoFacts1 PruneAlgoFacts2 PruneAlgoFacts5 PruneAlgoFacts6 PruneAlgoFacts7 PruneAlgoFacts8 PruneAlgoFacts9 PruneAlgoFacts10 PruneAlgoFacts11 PruneAlgoFacts12 PruneAlgoFacts13 PruneAlgoFacts.
+Local Open Scope Z_scope.
+
+Theorem C12_physical_store_along_every_history :
+  forall (H : bytes -> bytes), (forall x, length (H x) = 32%nat) ->
+  forall (fast : bool) (iv : Z) (b : bool) (ops : list op) (orcs : list (list bool * bool)),
+    init_ok iv b -> run_ok H (init_state iv b) ops -> bounded_run H (init_state iv b) ops ->
+    Forall phys_inv (phys_trace H fast (init_state iv b) [] ops orcs) \/ collision H.
+Proof. exact PA_phys_run_reachable. Qed.
+Print Assumptions C12_physical_store_along_every_history.
+
+Theorem C12_physical_deletion_exact :
+  forall (H : bytes -> bytes), (forall x, length (H x) = 32%nat) ->
+  forall (s : mstate) (r : list Z) (sched : list bool) (eff : bool) (n : Z),
+    store_ok H s -> forest_bounds (forest s) ->
+    rekey_ok r (forest s) -> n < latest_version s ->
+    (exists st' log fl,
+       prune_forest H eff r (forest s) sched n = POk (st', log, fl) /\
+       let f' := filter (fun p => n <? fst p) (forest s) in
+       st' = phys_of (rekeyed st') f' /\ rekey_ok (rekeyed st') f' /\
+       norm_store st' = expected_store f')
+    \/ collision H.
+Proof. exact PA_prune_refines. Qed.
+Print Assumptions C12_physical_deletion_exact.
+
+Theorem C12_physical_deletion_schedule_independent :
+  forall (H : bytes -> bytes), (forall x, length (H x) = 32%nat) ->
+  forall (s : mstate) (r : list Z) (sched1 : list bool) (eff1 : bool) (sched2 : list bool) (eff2 : bool)
+         (n : Z) st1 log1 fl1 st2 log2 fl2,
+    store_ok H s -> forest_bounds (forest s) ->
+    rekey_ok r (forest s) -> n < latest_version s ->
+    prune_forest H eff1 r (forest s) sched1 n = POk (st1, log1, fl1) ->
+    prune_forest H eff2 r (forest s) sched2 n = POk (st2, log2, fl2) ->
+    st1 = st2 \/ collision H.
+Proof. exact PA_prune_schedule_independent. Qed.
+Print Assumptions C12_physical_deletion_schedule_independent.
+
+(** the keys one deleteVersion removes are exactly those of [Store.prune_version_ops] *)
+Theorem C12_deleted_keys_exact :
+  forall (f : forest_t) (iv : Z),
+    forest_inv f -> NoDup (map fst f) -> forest_ok f iv ->
+    forall (v : Z) (rv rn : option node) (f'' : forest_t) (r : list Z),
+      f = (v, rv) :: (v + 1, rn) :: f'' -> rekey_ok r f ->
+      forall k,
+        (mfind kcmp k (phys_of r f) <> None /\
+         mfind kcmp k (phys_of (rk_next v rn r) ((v + 1, rn) :: f'')) = None) <->
+        (In k (del_keys (prune_version_ops f v)) /\ mfind kcmp k (phys_of r f) <> None).
+Proof. exact PA_version_keys_exact. Qed.
+Print Assumptions C12_deleted_keys_exact.
+
+Example C12_physical_history_example : ltac:(let t := type of pa_history_trace in exact t).
+Proof. exact pa_history_trace. Qed.
